@@ -33,8 +33,34 @@ CLAIMED = {
    tech="TLC-enumerated crash points (FramingGen F4/F5: every symbol position of hello and replies x clean / half-close / abrupt) executed on the three real transports; FramingTrace.tla requires an error for every pending and subsequent operation; MCFraming checks EofIsError/NoSpin on the receiver models",
    text="Every position of the session's life at which the peer can go away, three kinds of going away, three transports, 0-2 requests outstanding; a spin that never yields is caught by running each case in its own process with an external watchdog and CPU-time reading.",
    note="watchdogs as in C06; after an abrupt close already received data may be lost (allowed)"),
+ "C01": dict(engine="agent", cat="model_checking",
+   tech="TLC enumerates policy histories (AgentGen.tla); the unmodified agent binary runs them against a fake Junos + fake IRRd; AgentTrace.tla recomputes the ephemeral configuration with Junos!Load and checks Converged / NoOrphans / ReadBack / Idempotent at every successful run end",
+   text="All histories of length 2 (thorough 3) of a policy over 32 target sets + unmanaged, packed onto routers of 1, 2 and 60-120 policies, each followed by a repeat run with unchanged inputs, plus router-side failures of load/commit; the verdict is about the resulting configuration (policy evaluation over a prefix universe), never about the shape of the update.",
+   note="Junos.tla (J1-J5) is the trusted oracle; fake router cross-checked against it; expected data = route objects put into the fake IRRd"),
+ "C02": dict(engine="agent", cat="model_checking",
+   tech="same runs as C01; AgentTrace.tla applies every single load-configuration payload with Junos!Load and checks FailOpen, Accepts within the evaluated set, no foreign paths, configured ephemeral instance",
+   text="Every update of every history (family emptied / created / partial overlap / whole policy emptied / same-address ranges) is judged on its own, acknowledged or not.",
+   note="as C01"),
+ "C03": dict(engine="agent", cat="model_checking",
+   tech="TLC enumerates (installed?, failure class) cases (AgentGen C03Cases) + unreachable-IRR modes; agent binary vs fakes; AgentTrace.tla: no update/delete for a still-marked policy whose data could not be obtained, state unchanged, deletes only for installed unmarked policies",
+   text="Unknown as-set (D), E and F responses to the as-set query, malformed annotation, IRRd refusing / closing connections; each alone and all side by side with control policies.",
+   note="failure kinds are those the property lists; route-set / per-AS route query errors are sunk by design and not judged"),
+ "C04": dict(engine="agent", cat="model_checking",
+   tech="TLC enumerates (N pipelined loads, fault target, index, fault kind) (AgentGen FaultCases); agent binary vs scripted fake Junos; AgentTrace.tla checks CommitOnlyAfter / NoCommitAfterFailure / SuccessOnly on the request log and exit status",
+   text="171 fault scenarios: rpc-error, malformed, wrong message-id, empty reply, close before/after reply, failing reply released only after later loads were sent; at every request kind; N = 0..3.",
+   note="faults addressed by request kind, not position"),
+ "C15": dict(engine="agent", cat="model_checking",
+   tech="TLC enumerates class vectors of 2-3 policies over {ok, unknown as-set, E, F, PeerAS, AS-path regex, attribute match} (AgentGen C15Cases); agent binary vs fakes; AgentTrace.tla: run succeeds, ok-policies converge, others untouched",
+   text="Every mix with at least one evaluable and one unevaluable policy; evaluation order varies per process (hash map).",
+   note="as C01"),
+ "C16": dict(engine="agent", cat="model_checking",
+   tech="TLC enumerates statement shapes and computes Managed(shape) (AgentGen ShapeCases); agent binary vs fakes with nothing installed; AgentTrace.tla: updated set = managed set, expression used = annotation",
+   text="768 shapes: active absent/true/false x 8 comment forms x 4 bodies x attribute order x duplicated xmlns:jcmd x unrelated attribute, names with escaped characters; one shape per router next to control statements.",
+   note="Managed() in AgentGen.tla is the oracle"),
 }
 ENGINES = [
+ {"name": "agent", "path": "tools/check_agent.py", "serves_properties": ["C01", "C02", "C03", "C04", "C15", "C16"],
+  "kind_free_text": "TLC (AgentGen.tla enumerator, Junos.tla reference model, AgentTrace.tla judge) + unmodified agent binary over TLS against fake Junos and fake IRRd (harness/src/fakes.rs, bin/agentrun)"},
  {"name": "framing", "path": "tools/check_framing.py", "serves_properties": ["C06", "C07"],
   "kind_free_text": "TLC (Framing.tla, MCFraming, FramingGen, FramingTrace) + Rust driver with scripted TLS / child-process / SSH peers"},
  {"name": "session", "path": "tools/check_session.py", "serves_properties": ["C05", "C18"],
